@@ -486,6 +486,7 @@ func runC09(w *World, r *Report) {
 	}
 	r.floor(ruleContent, 45)
 	c09PresentChildPrinted(w, r, ctxs)
+	optionalPartsIndependent(w, r, "C09", ctxs, formatterFuncs(w))
 
 	// ---- 2. order coverage ----
 	const ruleOrder = "C09/order-coverage"
